@@ -68,6 +68,14 @@ fn func(v: &Value) -> g::Function {
 
 pub fn to_grammar(m: &Value) -> g::Module {
     let text = |v: &Value| -> Option<String> {
+        // Parse.tla keeps the texts of a block as a sequence (each is trimmed, then they are joined with a line break);
+        // MC_Syntax.tla gives one text, "\n" standing for none
+        if let Some(parts) = v.as_array() {
+            if parts.is_empty() {
+                return None;
+            }
+            return Some(parts.iter().map(|p| s(p).trim().to_string()).collect::<Vec<_>>().join("\n"));
+        }
         let t = s(v);
         if t == "\n" {
             None
